@@ -5,14 +5,17 @@
 (*                 accessor) and GetGroupPeers, plus the neighbour set          *)
 (*  kind "flood":  per step the copies a node sent and the messages it handed   *)
 (*                 to its subscribers; windows are history: what the node has   *)
-(*                 received / forwarded since its caches were last cleared      *)
+(*                 received / forwarded / handed to its subscribers since its   *)
+(*                 caches were last cleared.  A receive handler is one event    *)
+(*                 (deliver) or two (begin: up to its first outgoing stream,    *)
+(*                 finish: the rest), other handlers of the node in between     *)
 (* Verdict clauses transcribe the statement; the comparison with the module's   *)
 (* own transition operators only yields notes.                                  *)
 EXTENDS Multicast, TraceKit
 
 VARIABLES l, kind, mg, mann, wn, fcfg, bad, notes
 \* mg   : group id -> group (model of the membership part), mann : peer -> announced groups
-\* wn   : node -> window [recv, fwd] (history), fcfg : [lk, joined] of the running flooding scenario
+\* wn   : node -> window [recv, fwd, dlv] (history; dlv = ids handed to the subscribers), fcfg : [lk, joined] of the running flooding scenario
 
 ToSet(s) == {s[i] : i \in DOMAIN s}
 NoDup(s) == \A i, j \in DOMAIN s : i # j => s[i] # s[j]
@@ -74,16 +77,20 @@ IdOf(x) == <<x.origin, x.serial>>
 SentCopies(e) == {Copy(IdOf(e.sent[i]), e.sent[i].from, e.sent[i].to) : i \in DOMAIN e.sent}
 NotifiedIds(e) == [i \in DOMAIN e.notified |-> IdOf(e.notified[i])]
 
+JNoWindow == [recv |-> {}, fwd |-> {}, dlv |-> {}]
+IsHandle(e) == e.op \in {"deliver", "begin", "finish"} /\ e.node # 0
+
 FVerdict(c, e, W) ==
   Clause("C38:no_panic", ~e.panicked)
-  \o (IF e.op = "deliver" /\ e.node # 0 THEN
+  \o (IF IsHandle(e) THEN
         LET n == e.node
             id == IdOf(e.m)
-            dup == id \in W[n].recv
+            dup == e.op # "finish" /\ id \in W[n].recv     \* a copy of a message this node has already received in this window
             ids == NotifiedIds(e)
         IN    Clause("C38:delivered_to_subscribers_at_most_once_per_window",
                      /\ Len(ids) <= 1 /\ \A i \in DOMAIN ids : ids[i] = id
-                     /\ (dup => Len(ids) = 0))
+                     /\ (dup => Len(ids) = 0)
+                     /\ \A i \in DOMAIN ids : ids[i] \notin W[n].dlv)
            \o Clause("C38:forwarded_at_most_once_per_window",
                      /\ \A i \in DOMAIN e.sent : IdOf(e.sent[i]) = id /\ e.sent[i].from = n
                      /\ \A i, j \in DOMAIN e.sent : i # j => e.sent[i].to # e.sent[j].to
@@ -102,23 +109,41 @@ FVerdict(c, e, W) ==
                   e.left = 0 /\ ~e.capped /\ e.total_sent <= FloodBound(e.norig, e.nwin, e.nlinks))
       ELSE <<>>)
 
-\* history windows after the event (the module's own step functions)
+\* history windows after the event (the module's own step functions; dlv: what was observed)
 FPostW(c, e, W) ==
-  CASE e.op = "reset" -> [n \in c.nodes |-> NoWindow]
-    [] e.op = "deliver" /\ e.node # 0 ->
-         [W EXCEPT ![e.node] = ReceiveStep(W[e.node], e.node, c.peers[e.node], e.node \in c.joined,
-                                           Copy(IdOf(e.m), e.m.from, e.node)).W]
+  CASE e.op = "reset" -> [n \in c.nodes |-> JNoWindow]
+    [] IsHandle(e) ->
+         LET n == e.node
+             m == Copy(IdOf(e.m), e.m.from, n)
+             W1 == CASE e.op = "deliver" -> ReceiveStep(W[n], n, c.peers[n], n \in c.joined, m).W
+                     [] e.op = "begin"   -> [W[n] EXCEPT !.recv = @ \cup {m.id}]
+                     [] e.op = "finish"  -> FinishStep(W[n], n, c.peers[n], m).W
+         IN [W EXCEPT ![n] = [W1 EXCEPT !.dlv = @ \cup ToSet(NotifiedIds(e))]]
     [] e.op = "originate" /\ e.sent # <<>> ->
          [W EXCEPT ![e.n] = [@ EXCEPT !.fwd = @ \cup {IdOf(e.sent[1])}]]
-    [] e.op = "expire" -> [W EXCEPT ![e.n] = NoWindow]
+    [] e.op = "expire" -> [W EXCEPT ![e.n] = JNoWindow]
     [] OTHER -> W
 
 FDrift(c, e, W) ==
-  IF e.op = "deliver" /\ e.node # 0 THEN
+  IF IsHandle(e) /\ e.op = "deliver" THEN
      LET n == e.node
          r == ReceiveStep(W[n], n, c.peers[n], n \in c.joined, Copy(IdOf(e.m), e.m.from, n))
      IN    Clause("sent_copies_differ_from_model", r.out = SentCopies(e))
         \o Clause("notification_differs_from_model", r.notify = (e.notified # <<>>))
+  ELSE IF IsHandle(e) /\ e.op = "begin" THEN
+     LET n == e.node
+         m == Copy(IdOf(e.m), e.m.from, n)
+         r == BeginStep(W[n], n, n \in c.joined, m)
+     IN    Clause("sent_copies_differ_from_model", SentCopies(e) = {})
+        \o Clause("notification_differs_from_model", r.notify = (e.notified # <<>>))
+        \* the handler is held up iff it goes on to forward and there is somebody to forward to
+        \o Clause("handler_progress_differs_from_model",
+                  e.blocked = (r.go /\ m.id \notin W[n].fwd /\ c.peers[n] \ {m.from} # {}))
+  ELSE IF IsHandle(e) /\ e.op = "finish" THEN
+     LET n == e.node
+         r == FinishStep(W[n], n, c.peers[n], Copy(IdOf(e.m), e.m.from, n))
+     IN    Clause("sent_copies_differ_from_model", r.out = SentCopies(e))
+        \o Clause("notification_differs_from_model", e.notified = <<>>)
   ELSE IF e.op = "originate" THEN
      Clause("sent_copies_differ_from_model", {e.sent[i].to : i \in DOMAIN e.sent} = c.peers[e.n])
   ELSE IF e.op = "miss" THEN <<"scheduled_copy_was_not_in_the_queue">>
